@@ -53,6 +53,9 @@ impl Out {
         serde_json::to_writer(&mut self.w, &v).unwrap();
         self.w.write_all(b"\n").unwrap();
         self.lines += 1;
+        if self.lines % 64 == 0 {
+            let _ = self.w.flush();
+        }
     }
     pub fn finish(mut self) {
         self.w.flush().unwrap();
